@@ -38,17 +38,17 @@ const (
 )
 
 type drvCfg struct {
-	variant      int
-	v6           bool
-	first, last  int
+	variant       int
+	v6            bool
+	first, last   int
 	local, target []byte
-	sport, dport int
-	loosen       bool
-	echoCounter  uint32 // icmp: allocator counter before the driver is built
-	echoID       int
-	paris        bool
-	baseID       int
-	seq          uint32
+	sport, dport  int
+	loosen        bool
+	echoCounter   uint32 // icmp: allocator counter before the driver is built
+	echoID        int
+	paris         bool
+	baseID        int
+	seq           uint32
 	// sack handshake
 	initSeq, initAck uint32
 	hasTS            bool
@@ -69,17 +69,17 @@ type sendRecD struct {
 }
 
 type drvInst struct {
-	cfg    drvCfg
-	drv    common.TracerouteDriver
-	src    *simSource
-	snk    *simSink
-	t0     time.Time
-	sends  []sendRecD
-	w      *caseWriter
-	tags   map[string]int
-	sackV  *sack.VerifDriver
-	vm     *bpf.VM // the capture filter the protocol's entry point installs for this run
-	vmHS   *bpf.VM // SACK: the filter in place while the handshake is read
+	cfg   drvCfg
+	drv   common.TracerouteDriver
+	src   *simSource
+	snk   *simSink
+	t0    time.Time
+	sends []sendRecD
+	w     *caseWriter
+	tags  map[string]int
+	sackV *sack.VerifDriver
+	vm    *bpf.VM // the capture filter the protocol's entry point installs for this run
+	vmHS  *bpf.VM // SACK: the filter in place while the handshake is read
 }
 
 func filterVM(spec packets.PacketFilterSpec) *bpf.VM {
@@ -231,13 +231,18 @@ func (d *drvInst) recvX(frame []byte, tag string, expTTL int, expIP []byte) {
 
 // ---- reply construction (independent builders, not gopacket) -------------------
 
-func (c drvCfg) l4() [4]byte  { var a [4]byte; copy(a[:], c.local); return a }
-func (c drvCfg) t4() [4]byte  { var a [4]byte; copy(a[:], c.target); return a }
+func (c drvCfg) l4() [4]byte   { var a [4]byte; copy(a[:], c.local); return a }
+func (c drvCfg) t4() [4]byte   { var a [4]byte; copy(a[:], c.target); return a }
 func (c drvCfg) l16() [16]byte { var a [16]byte; copy(a[:], c.local); return a }
 func (c drvCfg) t16() [16]byte { var a [16]byte; copy(a[:], c.target); return a }
 
-func router4(i int) [4]byte  { return [4]byte{203, 0, 113, byte(1 + i%250)} }
-func router6(i int) [16]byte { var a [16]byte; a[0], a[1], a[2], a[3], a[15] = 0x20, 0x01, 0x0d, 0xb8, byte(1+i%250); a[7] = 0x99; return a }
+func router4(i int) [4]byte { return [4]byte{203, 0, 113, byte(1 + i%250)} }
+func router6(i int) [16]byte {
+	var a [16]byte
+	a[0], a[1], a[2], a[3], a[15] = 0x20, 0x01, 0x0d, 0xb8, byte(1+i%250)
+	a[7] = 0x99
+	return a
+}
 
 // te4 builds an ICMPv4 error (type/code) from src quoting q, with optional outer options.
 func te4(src, dst [4]byte, typ, code byte, q []byte, opts []byte, unused [4]byte) []byte {
@@ -282,9 +287,9 @@ func (d *drvInst) genuineReplies(s sendRecD, idx int) []reply {
 		nopts := []byte{1, 1, 1, 0}
 		rr := []byte{7, 7, 4, 0, 0, 0, 0, 0} // record route, padded
 		rewr := append([]byte(nil), P...)
-		rewr[1] = 0x28                   // TOS rewritten
-		rewr[8] = 1                      // TTL as it was when it expired
-		rewr[10], rewr[11] = 0xde, 0xad  // checksum not recomputed
+		rewr[1] = 0x28                  // TOS rewritten
+		rewr[8] = 1                     // TTL as it was when it expired
+		rewr[10], rewr[11] = 0xde, 0xad // checksum not recomputed
 		ext, un := rfc4884(P)
 		ext28, un28 := rfc4884(q28)
 		if c.variant != vSack || true {
@@ -306,13 +311,19 @@ func (d *drvInst) genuineReplies(s sendRecD, idx int) []reply {
 		case vUdp:
 			out = append(out, reply{"port_unreach", te4(c.t4(), c.l4(), 3, 3, q28, nil, [4]byte{})},
 				reply{"host_unreach_router", te4(r, c.l4(), 3, 1, q28, nil, [4]byte{})})
+			// every other destination-unreachable code a target or a filtering router really sends (net / host / protocol
+			// unreachable, fragmentation needed, the three administratively-prohibited codes)
+			for _, code := range []byte{0, 1, 2, 4, 9, 10, 13} {
+				out = append(out, reply{fmt.Sprintf("unreach_code%d_target", code), te4(c.t4(), c.l4(), 3, code, q28, nil, [4]byte{})})
+			}
+			out = append(out, reply{"unreach_code13_router", te4(r, c.l4(), 3, 13, q28, nil, [4]byte{})})
 		case vTcp:
 			ack := s.rnd + 1
 			if !c.paris {
 				ack = c.seq + 1
 			}
 			for _, f := range []struct {
-				n string
+				n  string
 				fl byte
 			}{{"synack", 0x12}, {"rst", 0x04}, {"rstack", 0x14}, {"synack_ece", 0x52}} {
 				seg := buildTCP4(tcpHdr{sport: uint16(c.dport), dport: uint16(c.sport), seq: 777, ack: ack, flags: f.fl, win: 512}, nil, c.t4(), c.l4())
@@ -328,17 +339,17 @@ func (d *drvInst) genuineReplies(s sendRecD, idx int) []reply {
 					opt = append(opt, 1, 1, 8, 10, 0, 0, 0, 9, 0, 0, 0, 7)
 				}
 				opt = append(opt, 1, 1, 5, byte(2+8*nb))
+				var blocks [][8]byte
 				for b := 0; b < nb; b++ {
 					le := c.initSeq + uint32(s.ttl) + uint32(b*3)
 					var e [8]byte
 					binary.BigEndian.PutUint32(e[0:], le)
 					binary.BigEndian.PutUint32(e[4:], le+1)
-					// the lowest block is not necessarily first
-					if b == 0 && nb > 1 {
-						opt = append(opt, e[:]...)
-					} else {
-						opt = append(opt, e[:]...)
-					}
+					blocks = append(blocks, e)
+				}
+				// the lowest block is not necessarily first: the most recently received segment's block leads (RFC 2018 section 4)
+				for b := len(blocks) - 1; b >= 0; b-- {
+					opt = append(opt, blocks[b][:]...)
 				}
 				for len(opt)%4 != 0 {
 					opt = append(opt, 1)
@@ -383,6 +394,11 @@ func (d *drvInst) genuineReplies(s sendRecD, idx int) []reply {
 		case vUdp:
 			out = append(out, reply{"port_unreach6", te6(c.t16(), c.l16(), 1, 4, P)},
 				reply{"addr_unreach6_router", te6(r, c.l16(), 1, 3, P)})
+			// no route / administratively prohibited / address unreachable / reject route, sent by the target itself
+			for _, code := range []byte{0, 1, 3, 6} {
+				out = append(out, reply{fmt.Sprintf("unreach6_code%d_target", code), te6(c.t16(), c.l16(), 1, code, P)})
+			}
+			out = append(out, reply{"unreach6_code1_router", te6(r, c.l16(), 1, 1, P)})
 		}
 	}
 	return out
@@ -489,8 +505,13 @@ func drvConfigs(r *rng, thorough bool) []drvCfg {
 		}
 		for _, lo := range []bool{false, true} {
 			rg := pick(r, ranges)
-			out = append(out, drvCfg{variant: vSack, first: rg[0], last: rg[1], local: l4a, target: t4a, sport: 50000 + r.intn(9000), dport: pick(r, []int{80, 443}), loosen: lo,
-				initSeq: pick(r, []uint32{0xffffffff, 0xfffffffe, 0xffffff80, 5678, r.u32()}), initAck: r.u32(), hasTS: r.bool(), tsVal: pick(r, []uint32{0xffffffce, r.u32()}), tsEcr: r.u32()})
+			sc := drvCfg{variant: vSack, first: rg[0], last: rg[1], local: l4a, target: t4a, sport: 50000 + r.intn(9000), dport: pick(r, []int{80, 443}), loosen: lo,
+				initSeq: pick(r, []uint32{0xffffffff, 0xfffffffe, 0xffffff80, 5678, r.u32()}), initAck: r.u32(), hasTS: r.bool(), tsVal: pick(r, []uint32{0xffffffce, r.u32()}), tsEcr: r.u32()}
+			if k == 0 && !lo {
+				// always: probes 1..6 straddle the 2^32 sequence wrap, so the blocks of one acknowledgement do too
+				sc.first, sc.last, sc.initSeq = 1, 6, 0xfffffffe
+			}
+			out = append(out, sc)
 		}
 	}
 	return out
